@@ -3,26 +3,56 @@
    that C09 talks about; the check is C09's decidable clause on the observation. *)
 From Coq Require Import List Bool Arith String.
 Import ListNotations.
-From Lime Require Import Base.Res Hs.Types Hs.Server Hs.Monitor Corr.HsServer Corr.HsChecks.
-(* besides the scripted handshakes: a peer that writes, in the same segment as its selection of TLS and therefore
-   in clear, credentials for one identity, completes the TLS handshake and then presents another identity's
-   credentials under TLS (an implementation-only direct check: Model B receives its inputs one at a time).  What
-   was received in clear before the switch must never be acted upon after it. *)
+From Lime Require Import Base.Res Hs.Types Hs.Server Hs.Monitor Hs.Pipelined Corr.HsServer Corr.HsChecks.
+Open Scope string_scope.
+Open Scope list_scope.
+
+(* ---- pipelined peers ----
+   Model B receives its inputs one at a time.  A peer may also write several envelopes in one segment, without
+   waiting for the answers ("glued" to the one before).  What the TCP transport does with them: its decoder
+   reads the whole segment into its buffer when it is asked for the first envelope; the later ones are served
+   from that buffer - unless SetEncryption switched the connection in between, which replaces the decoder
+   (tcpTransport.setConn), so that whatever was buffered in clear is discarded and never acted upon.
+   [effective] (Hs/Pipelined.v) turns a script with glued items into the script the session logic gets to see:
+   a glued item is dropped when, in Model B's run over the items before it, the server switched the encryption
+   after taking its last input. *)
+(* KPipelined: the scripted case [c] (its script lists every item the peer wrote, [glued] says which of them
+   were written in the same segment as the item before; [clear] are the identities whose credentials the peer
+   wrote only in clear, before an upgrade that it then completed). *)
 Inductive case :=
 | KScript (c : scase)
-| KPipelined (cleartext_identity : nat) (authenticated : list nat) (established_for : option nat).
+| KPipelined (c : scase) (glued : list bool) (clear : list nat).
+
+(* what a pipelined run is compared on: the session envelopes the server wrote (with the encryption they were
+   read under) and the callbacks it made (with the encryption in force) *)
+Definition pipe_proj (ob : obs) : list ev :=
+  filter (fun e => match e with Sent s _ => negb (terminal (ss_state s)) | _ => false end) (ob_wire ob) ++
+  filter (fun e => match e with AuthCall _ _ _ _ | RegCall _ _ | EstCb => true | _ => false end) (ob_calls ob).
+Definition pipe_model (c : scase) (glued : list bool) : obs :=
+  let ins := effective (k_conf c) (oracle_of c) [] (combine glued (k_script c)) in
+  project (handle_channel s_repaired (k_conf c) (oracle_of c) ins).
 
 Definition check (c : case) : bool :=
   match c with
   | KScript s => c09_check s
-  | KPipelined clear auths est =>
-      negb (existsb (Nat.eqb clear) auths) &&
-      match est with Some n => negb (Nat.eqb n clear) | None => true end
+  | KPipelined s _ clear =>
+      (* what was received in clear before the switch is never acted upon after it *)
+      forallb (fun e => match e with
+                        | AuthCall f _ _ _ | RegCall f _ => negb (existsb (Nat.eqb f) clear)
+                        | _ => true end) (ob_calls (k_obs s)) &&
+      (* and whatever is acted upon is looked at under the confirmed encryption *)
+      match last_confirmed (ob_wire (k_obs s)) with
+      | Some e => forallb (fun ev => match ev with AuthCall _ _ _ enc | RegCall _ enc => String.eqb enc e | _ => true end)
+                          (ob_calls (k_obs s))
+      | None => true
+      end
   end.
 Definition agrees (c : case) : bool :=
   match c with
   | KScript s => evs_eqb (c09_proj (k_obs s)) (c09_proj (model_obs s))
-  | KPipelined _ _ _ => true
+  | KPipelined s glued _ =>
+      Nat.eqb (List.length glued) (List.length (k_script s)) &&
+      evs_eqb (pipe_proj (k_obs s)) (pipe_proj (pipe_model s glued))
   end.
 Definition mismatches (cs : list case) : list nat := bad_indices agrees cs.
 Definition violations (cs : list case) : list nat := bad_indices check cs.
